@@ -13,6 +13,7 @@
 From Coq Require Import ZArith List Bool.
 From TD Require Import Lib.Bytes Lib.GoSem Gen.Obfs2Consts Model.Obfs2 Proof.Obfs2.
 From TD Require Model.Codec Proof.Obfs2Listen.
+From TD Require Import Lib.ReadFull Proof.ReadFullInst.
 Import ListNotations.
 Open Scope Z_scope.
 
@@ -90,6 +91,14 @@ Theorem C18_listener_tag :
     c <> Codec.Full -> Codec.detect (replay_tag (Obfs2Listen.obf_tag c) ++ s) = Ok (c, s).
 Proof. exact Obfs2Listen.obf_listener_detect. Qed.
 Print Assumptions C18_listener_tag.
+
+(* Accept reads the 64 header bytes with io.ReadFull: for every way the connection splits them
+   into reads the result is the byte-list model's read_full. *)
+Theorem C18_header_chunking :
+  forall (k : Z) (s : bytes) (szs : list nat),
+    read_full_sched OEof OUnexpEof k s szs = read_full k s.
+Proof. exact obfs2_read_full_chunking. Qed.
+Print Assumptions C18_header_chunking.
 
 (* ---- non-vacuity ---- *)
 Example C18_handshake_exists :
